@@ -401,6 +401,47 @@ def search(ctx, deep):
                                'after fit(X) tau and theta are those of X, whatever was fitted before',
                                f'{fam}.fit:refit-differs-from-fresh')
                 break
+    # history over ONE array object: the caller keeps a work buffer, overwrites it in place with the next batch and fits
+    # again (the same model, another model of the family): the outcome is that of a fresh model fitted on a copy of the
+    # values now in the buffer — nothing may be remembered per array identity, shape or class
+    same_len = {}
+    for X in valid:
+        same_len.setdefault(len(X), []).append(X)
+    groups = [g for g in same_len.values() if len(g) >= 2]
+    if not groups:
+        groups = [[valid[0], valid[0][::-1].copy() * np.array([1.0, 1.0])]] if valid else []
+        if groups:
+            groups[0][1][:, 1] = 1 - groups[0][1][:, 1]
+    for fam in B.FAMS:
+        for g in groups[:4]:
+            X1, X2 = g[0], g[1]
+            buf = np.array(X1, dtype=float, copy=True)
+            first = B.cls_of(fam)()
+            try:
+                first.fit(buf)
+            except ValueError:
+                pass
+            buf[:] = X2
+            outcomes = {}
+            for label, obj in (('same-model', first), ('other-model', B.cls_of(fam)()), ('fresh-on-copy', None)):
+                if obj is None:
+                    obj, data = B.cls_of(fam)(), np.array(X2, dtype=float, copy=True)
+                else:
+                    data = buf
+                try:
+                    obj.fit(data)
+                    outcomes[label] = ('ok', obj.tau, obj.theta)
+                except Exception as e:  # noqa
+                    outcomes[label] = ('err ' + vc.exc_kind(e), None, None)
+            checked += 1
+            if not (outcomes['same-model'] == outcomes['fresh-on-copy'] == outcomes['other-model']):
+                found += 1
+                ctx.fail_input(f'{fam}.fit', {'history': 'buf = X1; fit(buf); buf[:] = X2; fit(buf) on the same model and on another model',
+                                             'X1': X1.tolist()[:6], 'X2': X2.tolist()[:6], 'n': len(X1)},
+                               {k: list(v) for k, v in outcomes.items()},
+                               'fit is a function of the VALUES in the array, not of the array object',
+                               f'{fam}.fit:depends-on-array-identity')
+                break
     ctx.support = {'oracle_checks': checked, 'failures': found, 'deep': deep}
 
 
